@@ -221,15 +221,75 @@ def run_parts(out, parts, tier):
     return res
 
 
+FAMILIES = {}
+
+
+def family(name):
+    import importlib
+    if name not in FAMILIES:
+        FAMILIES[name] = importlib.import_module(name)
+    return FAMILIES[name]
+
+
+def run_family(out, fam_name, cfgs, tier, limit_ms=20000, after_read=False, only_keys_prefix=None):
+    """Generates the programs of a family, runs them through the real solver in every cfg, judges every result.
+    Returns coverage statistics.  Findings are confirmed by re-running the single program twice."""
+    import riddle
+    fam = family(fam_name)
+    progs = fam.generate(tier == "thorough")
+    stats = {"programs": len(progs), "runs": 0, "verdicts": {}, "per_cfg": {}}
+    byid = {p[0]: p for p in progs}
+    for cfg in cfgs:
+        t0 = time.time()
+        res = riddle.run_programs(cfg, [(p[0], p[1]) for p in progs], after_read=after_read, limit_ms=limit_ms, tag=fam_name)
+        verd = {}
+        found = {}
+        for p in progs:
+            r = res.get(p[0], {"verdict": "missing", "what": "no result line"})
+            verd[r["verdict"]] = verd.get(r["verdict"], 0) + 1
+            j = fam.judge(p, r)
+            if j:
+                for key, msg in (j if isinstance(j, list) else [j]):
+                    if only_keys_prefix and not key.startswith(only_keys_prefix):
+                        continue
+                    f = found.setdefault(key, {"key": key, "case": p[1], "msg": msg, "count": 0, "pid": p[0]})
+                    f["count"] += 1
+                    if len(p[1]) < len(f["case"]):
+                        f.update(case=p[1], msg=msg, pid=p[0])
+        # replay before report
+        for key, f in found.items():
+            ok = 0
+            for _ in range(2):
+                r2 = riddle.run_programs(cfg, [(f["pid"], f["case"])], after_read=after_read, limit_ms=limit_ms * 3, tag=fam_name + "r")
+                j2 = fam.judge(byid[f["pid"]], r2.get(f["pid"], {"verdict": "missing", "what": ""}))
+                keys2 = [k for k, _ in (j2 if isinstance(j2, list) else ([j2] if j2 else []))]
+                ok += key in keys2
+            if ok < 2:
+                out.harness_errors.append("finding %s did not reproduce when its program was re-run alone (%d/2): %s" % (key, ok, f["case"][:200]))
+                continue
+            out.findings.append({"key": key, "case": f["case"], "msg": f["msg"], "count": f["count"], "engine": "progrun:" + fam_name, "cfg": cfg})
+        stats["runs"] += len(progs)
+        for k, v in verd.items():
+            stats["verdicts"][k] = stats["verdicts"].get(k, 0) + v
+        stats["per_cfg"][cfg] = {"verdicts": verd, "wall_s": round(time.time() - t0, 1)}
+    stats["samples"] = [progs[i][1] for i in range(0, len(progs), max(1, len(progs) // 5))][:5]
+    return stats
+
+
+SOLVER_CFGS_QUICK = ["rel", "dbg-hadd-ci"]
+SOLVER_CFGS_ALL = ["rel", "rel-hadd", "rel-ci", "rel-hadd-ci", "dbg", "dbg-hadd", "dbg-ci", "dbg-hadd-ci"]
+
+
 def c16(tier):
     out = Outcome("C16", tier, "exploration")
     parts = [("tokens/rel", "rel", "lexmc", ["--mode", "tokens"]), ("parse/rel", "rel", "lexmc", ["--mode", "parse"]),
              ("tokens/dbgn", "dbgn", "lexmc", ["--mode", "tokens"]), ("parse/dbgn", "dbgn", "lexmc", ["--mode", "parse"])]
     res = run_parts(out, parts, tier)
-    ev = sum(r["counters"].get("cases", 0) for r in res.values())
-    dn = res["tokens/rel"]["distinct"].get("token_streams", 0) + res["parse/rel"]["distinct"].get("asts", 0)
+    st = run_family(out, "fam_eval", SOLVER_CFGS_QUICK if tier == "quick" else SOLVER_CFGS_ALL, tier, only_keys_prefix="C16")
+    ev = sum(r["counters"].get("cases", 0) for r in res.values()) + st["runs"]
+    dn = res["tokens/rel"]["distinct"].get("token_streams", 0) + res["parse/rel"]["distinct"].get("asts", 0) + st["programs"]
     out.coverage = {
-        "evaluations": ev, "distinct_nontrivial": dn,
+        "evaluations": ev, "distinct_nontrivial": dn, "eval_family": st,
         "rule": "(a) tokens: the real lexer against a reference lexer written from the token table: every keyword with its prefixes, "
                 "extensions, capitalisation and following punctuation; number, string and comment forms (incl. '**/', nested openers, "
                 "CR/LF); and EVERY sequence of <=3 (thorough 4) tokens of a 54-spelling token alphabet joined by ' ' and by nothing "
@@ -239,8 +299,12 @@ def c16(tier):
                 "unary, left-to-right) and fully parenthesised, in 14 placements (local initialiser, top-level and block statement, "
                 "disjunct, fact/goal argument, field initialiser, constructor init-list and body, predicate body, void-method body, "
                 "return, assignment, disjunct cost); oracle = the AST the real parser builds (observed through its virtual node "
-                "factories) equals the tree. distinct_nontrivial = distinct expected token streams + distinct expected ASTs. "
-                "Evaluation of expressions (values, truth tables) is checked at program level by the E3 part of this property when built.",
+                "factories) equals the tree. (c) evaluation (lib/fam_eval.py): every linear arithmetic tree of depth <=2 over {a (variable "
+                "pinned by a constraint), b (alias of a constant), 2, 0.5} and every boolean tree over {p, q, true, a<b, a>=3.0} for each "
+                "truth assignment of p,q, rendered minimally and fully parenthesised, as `r == <e>;`; depth<=1 trees also as initialiser, "
+                "field initialiser, constructor argument/body, fact and goal argument, rule body, block and disjunct; the program is "
+                "solved by the real solver in 2 (thorough 8) build configurations and r must equal the exact value. distinct_nontrivial "
+                "= distinct expected token streams + distinct expected ASTs + distinct evaluation programs.",
         "samples": res["tokens/rel"]["samples"][:3] + res["parse/rel"]["samples"][:3],
         "exhaustive": all(r["exhaustive"] for r in res.values()),
         "parts": {k: {"counters": r["counters"], "distinct": r["distinct"], "exhaustive": r["exhaustive"], "wall_ms": r.get("wall_ms")} for k, r in res.items()},
